@@ -8,12 +8,14 @@ reg("C15",
     quick=dict(defs=dict(MODE=0, NCYC=3, DMAX=2, TSCHED=1), symx=dict(shards=16, **{"max-wall": 900})),
     thorough=dict(defs=dict(MODE=0, NCYC=4, DMAX=2, TSCHED=1), symx=dict(shards=16, **{"max-wall": 3000, "shard-depth": 8})),
     reach=["end", "no_throw", "throw", "throw_in_first_cycle", "throw_in_consecutive_evaluations", "normal_evaluation_after_throw",
-           "thrower_woken_by_own_schedule", "throw_while_own_wakeup_pending", "two_nodes_throw", "two_nodes_throw_in_same_cycle"],
+           "thrower_woken_by_own_schedule", "throw_while_own_wakeup_pending", "two_nodes_throw", "two_nodes_throw_in_same_cycle",
+           "same_error_message_in_two_cycles", "same_error_message_again_after_a_good_evaluation"],
     bounds="per-node capture (Wiring::activate_error_capture via exception_time_series): src -> T (capturing compute node that also self-schedules) -> "
            "dependent sink, error_output(T) -> error sink; S (capturing self-scheduling SOURCE node) -> dependent sink, error_output(S) -> error sink; "
            "src -> independent node (wired after T and S) -> sink. NCYC source cycles; payloads symbolic in [-1000,1000]; all cycle deltas symbolic in "
            "[1,DMAX]; T may re-schedule itself in its first TSCHED evaluations by a symbolic delta in [0,DMAX] (0 = no request), requested BEFORE it "
-           "throws; the set of evaluations in which T / S throw is one symbolic bool per evaluation (every subset); the whole program is run twice "
+           "throws; the set of evaluations in which T / S throw is one symbolic bool per evaluation (every subset); enumerated: all throws of a node carry the same "
+           "message / a message numbered by the evaluation; the whole program is run twice "
            "inside each path (fault script armed / disarmed) on the same inputs and the recorded streams are compared",
     outside=_OUT,
     )
@@ -24,7 +26,7 @@ reg("C15",
     quick=dict(defs=dict(MODE=1, NCYC=3, DMAX=2, TSCHED=1), symx=dict(shards=16, **{"max-wall": 900})),
     thorough=dict(defs=dict(MODE=1, NCYC=4, DMAX=3, TSCHED=2), symx=dict(shards=16, **{"max-wall": 3000, "shard-depth": 8})),
     reach=["end", "no_throw", "throw", "throw_in_first_cycle", "throw_in_consecutive_evaluations", "normal_evaluation_after_throw", "thrower_woken_by_own_schedule",
-           "throw_while_own_wakeup_pending"],
+           "throw_while_own_wakeup_pending", "same_error_message_in_two_cycles", "same_error_message_again_after_a_good_evaluation"],
     bounds="try_except over a sub-graph, wired by the real wire_try_except (higher_order_impl.h) with a hand-made WiredFn -> try_except_node: "
            "src -> try_except( pre -> T -> post ) -> out sink / exception sink, src -> independent node -> sink. T throws in a symbolic subset of its "
            "evaluations and may self-schedule (as in C15_capture); NCYC source cycles, payloads / deltas symbolic; faulty run and fault-free twin in one path",
@@ -36,7 +38,8 @@ reg("C15",
     anchor_files=["src/hgraph/runtime/map_node.cpp", "src/hgraph/runtime/graph.cpp", "src/hgraph/runtime/node_error.cpp", "src/hgraph/types/graph_wiring.cpp"],
     quick=dict(defs=dict(MODE=2, NCYC=3, DMAX=2, TSCHED=0), symx=dict(shards=16, **{"max-wall": 900})),
     thorough=dict(defs=dict(MODE=2, NCYC=4, DMAX=2, TSCHED=0), symx=dict(shards=16, **{"max-wall": 3000, "shard-depth": 8})),
-    reach=["end", "no_throw", "key_child_throws", "one_key_throws_other_key_runs", "both_keys_throw", "key_child_normal_evaluation_after_throw"],
+    reach=["end", "no_throw", "key_child_throws", "one_key_throws_other_key_runs", "both_keys_throw", "key_child_normal_evaluation_after_throw",
+           "same_error_message_in_two_cycles"],
     bounds="keyed map with per-key error capture (real wire_map + exception_time_series on the TSD output -> map_node write_map_error): keysrc (keys 0 and 1, "
            "both added in cycle 0, afterwards an enumerated non-empty subset of the keys is updated per cycle) -> map_( (key, x): pre -> TK ) -> per-key "
            "dependent sink; error TSD -> per-key error sink; src -> independent node -> sink. TK of key k throws in a symbolic subset of its evaluations; "
